@@ -136,6 +136,22 @@ class PropertyCheck:
             self.covers += ex.covers
             self.assumptions_used |= ex.assumptions_used
             self.paths += ex.paths
+        # "lift": entry points re-verified with named callees inlined, so that a defect inside a
+        # callee also yields a counter-model in terms of the entry point's own inputs
+        for entry, callees in self.cfg.get("lift", {}).items():
+            self.reg.force_inline = set(callees)
+            try:
+                ex = ver.verify_function(self.reg.get(entry))
+            finally:
+                self.reg.force_inline = set()
+            for ob in ex.order:
+                ob.name += "+inlined"
+            self.functions.append({"function": entry, "variant": "callees inlined: " + ", ".join(callees),
+                                   "obligations": len(ex.order), "paths": ex.paths,
+                                   "sha256": repo.lookup(entry).module.sha})
+            self.obls += ex.order
+            self.covers += ex.covers
+            self.paths += ex.paths
         self.lemma_names = []
         for q in self.reg.lemmas:
             ex = ver.verify_lemma(q)
@@ -310,6 +326,7 @@ class PropertyCheck:
             "undecided": [u["obligation"] for u in self.undecided],
             "known_findings_reported": self.known_hits,
             "notes": self.notes,
+            "phase_seconds": getattr(self, "phase", {}),
         }
         if extra_cov:
             cov.update(extra_cov)
@@ -329,11 +346,20 @@ class PropertyCheck:
 
     def run(self):
         try:
+            self.phase = {}
+            t = time.time()
             self.generate()
+            self.phase["generate_s"] = round(time.time() - t, 2)
+            t = time.time()
             self.discharge()
+            self.phase["discharge_s"] = round(time.time() - t, 2)
+            t = time.time()
             self.triage()
+            self.phase["triage_s"] = round(time.time() - t, 2)
+            t = time.time()
             if not self.undecided:
                 self.native_smoke()
+            self.phase["native_smoke_s"] = round(time.time() - t, 2)
             if "extra" in self.cfg:
                 self.extra_cov = self.cfg["extra"](self)
             else:
@@ -367,7 +393,7 @@ class PropertyCheck:
         discharged = sum(1 for r in self.results if r["status"] == "unsat")
         print(f"{self.prop}: {len(self.obls)} obligations, {discharged} discharged, "
               f"{len(self.violations)} violated, {len(self.undecided)} undecided, "
-              f"{len(self.functions)} functions/lemmas under contract, {round(time.time() - self.t0, 1)} s")
+              f"{len(self.functions)} functions/lemmas under contract, {round(time.time() - self.t0, 1)} s {self.phase}")
         if self.violations:
             # one VIOLATION line per failing function (first failing obligation of each)
             seen = set()
